@@ -74,7 +74,11 @@ where
             .statistics
             .iter()
             .map(|s| match s.statistic.calculate(&self.scs) {
-                Ok(stat) => Ok(format!("{stat:.precision$}", precision = s.precision)),
+                // The formatting machinery supports at most u16::MAX decimals (and panics beyond)
+                Ok(stat) => Ok(format!(
+                    "{stat:.precision$}",
+                    precision = s.precision.min(usize::from(u16::MAX))
+                )),
                 Err(e) => Err(anyhow!(e)),
             })
             .collect::<Result<Vec<_>, _>>()?;
